@@ -2,7 +2,7 @@
 From Coq Require Import ZArith List Bool Lia ZifyBool.
 From Exactly Require Import Model.Interval.
 Import ListNotations.
-Open Scope Z_scope.
+Local Open Scope Z_scope.
 
 (** [w] is sound for a matcher whose truth value at [x] is [h]: every [x] the matcher accepts
     lies in [pos w], every [x] it rejects lies in [inv w]. *)
